@@ -327,10 +327,11 @@ type Global struct {
 	Registry      *LTable
 	Global        *LTable
 
-	builtinMts map[int]LValue
-	tempFiles  []*os.File
-	openFiles  []*lFile // files opened by name that are still open: flushed and closed by LState.Close
-	gccount    int32
+	builtinMts  map[int]LValue
+	tempFiles   []*os.File
+	openFiles   []*lFile // files opened by name that are still open: flushed and closed by LState.Close
+	gccount     int32
+	resumeDepth int // coroutines currently resumed inside one another
 }
 
 type LState struct {
